@@ -234,6 +234,31 @@ def check(ctx):
     r3.require_floor(10, "predicate disjuncts, literals and guarded deletion sites")
     rules.append(r3)
 
+    # ---------------------------------------------------------------- D5: init writes where it was pointed
+    r5 = Rule("C16-D5-init-target", "D5",
+              "in run_init the given configuration path is replaced by <project>/tauri.conf.json only under both tests of the documented default rule: "
+              "the file name is tauri.conf.json AND the path has no directory component (Path::parent is empty)",
+              "a weaker guard redirects `-o staging/tauri.conf.json` to the project's tauri.conf.json: init then modifies a file it was not pointed at")
+    ri = [f for fid, f in P.fns.items() if fid.endswith("::run_init") and fid in reach]
+    for f in ri:
+        joins = [c for c in f.calls if c.name == "join" and c.bb in f.reach_blocks and (c.arg_str(1) or "").endswith(".json")]
+        for c in joins:
+            texts = []
+            for (a, lab) in f.edge_dominators(c.bb):
+                o, outcome = f.cond_struct(a, lab)
+                texts.append((f.describe_origin(o, short=True, deep=6), outcome))
+            by_name = any("Path::file_name(" in t and out == "true" for t, out in texts)
+            by_parent = any("Path::parent(" in t and out == "true" for t, out in texts)
+            if by_name and by_parent:
+                r5.ok("run_init: redirect to <project>/%s only for a bare file name" % c.arg_str(1))
+            else:
+                r5.bad(V(r5.id, f.id, "init-redirect-guard:name=%s,parent=%s" % (by_name, by_parent),
+                         "the configuration path is replaced by <project>/%s without the %s test" % (c.arg_str(1), "file-name" if not by_name else "no-directory-component"), c.file, c.line))
+    if not ri:
+        r5.bad(V(r5.id, "<anchor>", "missing:run_init", "anchor not found"))
+    r5.require_floor(1, "init redirect sites")
+    rules.append(r5)
+
     return finish(
         PROP, ctx, rules,
         "Who-may-call enumeration of every std::fs mutator in the resolved call graph of lib+bin, interprocedural "
